@@ -36,6 +36,9 @@ func init() {
 			{ID: "R06n", Floor: 4, Doc: "once a finalizer has run the store takes no more puts, also when the finalize failed: a section appended after a partly written header or index lies where Resume truncates or rescans (= R04c)", Run: ruleR04c},
 			{ID: "R06o", Floor: 1, Doc: "Resume cuts a finalized file back to the end of its payload before it blanks the header: the Truncate call is not reachable from the all-zero header write (the other order leaves, after a crash between the two, a blank header followed by payload and old index, which the next rescan reads as sections)", Run: ruleR06o},
 			{ID: "R06p", Floor: 1, Doc: "`car filter --append` treats a destination it cannot open as an error: from the failed OpenReader no success return and no truncation is reachable, and FilterCar does not re-enter itself (an output left by an interrupted session fails to open; starting over destroys it)", Run: ruleR06p},
+			{ID: "R06q", Floor: 2, Doc: "the header a session finalizes is the constructor's NewHeader(0) plus the paddings the caller asked for, nothing adopted from the file (= R05b)", Run: ruleR05b},
+			{ID: "R06r", Floor: 2, Doc: "in CARv2 mode a finalize reports success only as the result of store.Finalize (= R05l)", Run: ruleR05l},
+			{ID: "R06s", Floor: 1, Doc: "the library removes, renames or truncates no file by name (os.Remove, os.RemoveAll, os.Rename, os.Truncate): a file that cannot be resumed is refused and left as it is", Run: ruleR06s},
 			{ID: "R06h", Floor: 2, Doc: "who may write the v2 header slot of a read-write session's file: store.Finalize writes the final header (after the index, R06b); everywhere else in the writing packages only the all-zero header may be written (a non-final, non-zero header on disk makes a later torn Finalize header look complete to Resume)", Run: ruleR06h},
 			{ID: "R06g", Floor: 1, Doc: "the file is truncated by the header on file only when that header is complete: IndexOffset (the last field Finalize writes) >= DataOffset + DataSize", Run: ruleR06g},
 			{ID: "R06f", Floor: 1, Doc: "every section already in the file is re-indexed on resume (= R12c): acknowledged blocks stay retrievable", Run: ruleR12c},
@@ -65,6 +68,8 @@ func init() {
 			{ID: "R12m", Floor: 2, Doc: "only Resume resizes a session's file: a Discard or Close that trims the file changes what the next Resume finds (= R06k)", Run: ruleR06k},
 			{ID: "R12n", Floor: 6, Doc: "the index a resumed session finalizes is byte-identical to the one an uninterrupted session writes: buckets are written in ascending width order, not map order (= R11b)", Run: ruleR11b},
 			{ID: "R12o", Floor: 1, Doc: "Resume judges sections by their framing only: no hashing of block contents is reachable from it (directly or through functions the pinned tree does not have) — Put never verified what it stored, so a verifying resume refuses the writer's own files", Run: ruleR12o},
+			{ID: "R12p", Floor: 1, Doc: "OpenReadableWritable never starts a file over: it does not call init, and every success return is behind store.Resume having accepted the file (version, roots and padding are checked for every non-fresh file, however short)", Run: ruleR12p},
+			{ID: "R12q", Floor: 7, Doc: "Resume starts its rescan where the header on file ends: HeaderSize is the size of the encoding (= R01c)", Run: ruleR01c},
 		},
 	})
 	register(PropertyDef{
@@ -90,6 +95,9 @@ func init() {
 			{ID: "R16k", Floor: 4, Doc: "the deferred writer builds its CAR writer over the caller's stream or a freshly opened, truncated file (= R05g)", Run: ruleR20b},
 			{ID: "R16m", Floor: 1, Doc: "the deferred writer reports a put as stored only when the underlying writer did (= R20f)", Run: ruleR20f},
 			{ID: "R16n", Floor: 1, Doc: "no reader/writer adapter type beside the audited ones in internal/io: a concrete type of that package that the pinned tree does not have declares no Write/WriteAt/Read/ReadAt/ReadByte/Seek", Run: ruleR16n},
+			{ID: "R16o", Floor: 2, Doc: "a failed store.Finalize is what the finalizers return: from its non-nil outcome every return carries that error (as it is or wrapped), not the outcome of a clean-up write", Run: ruleR16o},
+			{ID: "R16p", Floor: 2, Doc: "a failed put resizes nothing: only Resume truncates a session's file (= R06k)", Run: ruleR06k},
+			{ID: "R16q", Floor: 1, Doc: "Get answers from the archive: no read method starts to keep blocks of its own (= R08o)", Run: ruleR08o},
 		},
 	})
 }
